@@ -177,7 +177,8 @@ def check_case(case):
         try:
             sax.to_sax(h5.walk(r, builder), rec)
         except Exception as e:
-            if known_trigger and active("C19-void-element-with-children"):
+            # the recorded finding is exactly: to_sax's final 'assert False, "Unknown token type"' on the walker's SerializeError token
+            if known_trigger and active("C19-void-element-with-children") and isinstance(e, AssertionError) and "Unknown token type" in str(e):
                 return Verdict("known", finding="C19-void-element-with-children", nontrivial=True)
             return Verdict("fail", "to_sax raised %s: %s on the %s walk of %s" % (type(e).__name__, short(str(e), 80), builder, short(text, 150)),
                            "to_sax-exception:" + type(e).__name__, nontrivial=True)
